@@ -1042,7 +1042,7 @@ def mesen_header_rule(run, R="MPT"):
     for g in fs:
         for bi, t in g.calls():
             c = t.get("callee") or ""
-            if not (c.endswith("::checked_sub") or c.endswith("::saturating_sub") or c.endswith("::wrapping_sub")) or len(t["args"]) != 2 or const_int(t["args"][1]) != 16:
+            if not (c.endswith("::checked_sub") or c.endswith("::saturating_sub") or c.endswith("::wrapping_sub")) or len(t["args"]) != 2 or not _is_ines_header(g, t["args"][1]):
                 continue
             n += 1
             expr = _deep(g, t["args"][0], 10)
@@ -1068,7 +1068,7 @@ def mesen_header_rule(run, R="MPT"):
                       "format_mesen_mlb subtracts the 16-byte header from `%s`, which does not include the label's address: labels of a bank that starts inside the header would be dropped (or misplaced)" % expr[:200])
     for g in fs:
         for bi, si, st in g.stmts():
-            if st["k"] == "assign" and st["rv"]["k"] == "binop" and st["rv"]["op"].startswith("Sub") and const_int(st["rv"]["r"]) == 16:
+            if st["k"] == "assign" and st["rv"]["k"] == "binop" and st["rv"]["op"].startswith("Sub") and _is_ines_header(g, st["rv"]["r"]):
                 n += 1
                 expr = _deep(g, st["rv"]["l"], 10)
                 run.check(bool(re.search(r"BigInt::maybe_into\(P\d+\)", expr)), R, R + "|mesen-header|binop", g.loc(st["span"]), "header subtracted from the full offset",
@@ -1820,6 +1820,14 @@ def bool_field_value_used(run, R="MPT"):
     ok = bool(pays) and any(p is None for p in pays)
     run.check(ok, R, R + "|fields|bool-value-used", f.loc(), "a flag field given a value takes that value",
               "AstFields::extract_as_bool answers only constants (%s): the value written for a flag is ignored, so `#bankdef a { ..., fill = false }` switches filling ON" % pays)
+
+
+def _is_ines_header(f, op):
+    """the 16-byte header of an iNES file, in bytes or in bits"""
+    if const_int(op) in (16, 128):
+        return True
+    d = _deep(f, op, 4)
+    return bool(re.fullmatch(r"\(?(16_usize Mul\w* 8_usize|8_usize Mul\w* 16_usize)\)?(\.0)?", d))
 
 
 def _mesen_family(prog):
